@@ -61,7 +61,11 @@ def plan(tier, seed):
 # ---------------------------------------------------------------------------
 def gen_definition(rng, idx):
     """-> dict describing the definition (picklable, no classes)."""
-    name = "cust%dx%d" % (idx, rng.randrange(1000))
+    # names that contain the words the library itself uses when it maps class names to
+    # command names and back
+    name = rng.choice(["cust%dx%d", "cust%dx%d", "run%dcommand%d", "sub%dcommandok%d",
+                       "command%dfoo%d", "a%dtest%d", "my%daction%d", "x%dcontrol%dcommand"]) % (
+                           idx, rng.randrange(1000))
     d = {"name": name, "role": rng.choice(["action", "action", "test"]),
          "ext": rng.choice([None, None] + EXTS), "slots": [], "pos": []}
     used = set()
